@@ -36,7 +36,8 @@ THEOREMS = [(P, "C28_aligned_window"), (P, "C28_any_window_twice"), (P, "C28_any
             (P, "C28_limit_update_next_request"), (P, "C28_delete_applies_defaults_next_request"),
             (P, "C28_counter_aligned_window"), (P, "C28_counter_any_window_twice"),
             (P, "C28_counter_decision_spec"), (P, "C28_counter_limit_update"), (P, "C28_tracker_period"),
-            (O, "C28_geometry"), (O, "C28_call_sites"),
+            (P, "C28_first_requests_share_counter"), (P, "C28_no_recheck_refuted"),
+            (O, "C28_geometry"), (O, "C28_call_sites"), (O, "C28_get_or_create_rechecks"),
             (O, "C28_deployed_minute_window"), (O, "C28_deployed_hour_window"),
             (O, "C28_deployed_any_window_twice")]
 MODULES = [P, O]
@@ -146,6 +147,24 @@ def translate_params():
     locked.append(("advance reads clock", "time.Now()" in adv))
     locked.append(("maybeReset reads clock", "time.Now()" in mr))
 
+    # get-or-create helpers: the map store must sit in a write-locked section that re-checks the
+    # map first (double-checked creation); a helper that stores without re-check lets two
+    # concurrent first requests create a counter each
+    mg_text = open(os.path.join(vlib.REPO, GOV + "manager.go")).read()
+    recheck = []
+    for m in re.finditer(r"^func (?:\(\w+ \*?\w+\) )?(\w*[gG]etOrCreate\w*)(?:\[[^\]]*\])?\(", mg_text, re.M):
+        name = m.group(1)
+        body_ = _func_body(mg_text, r"^func (?:\(\w+ \*?\w+\) )?%s(?:\[[^\]]*\])?\(" % re.escape(name))
+        store = re.search(r"\n\s*[\w.]+\[\w+\]\s*=\s*\w+", body_)
+        if not store:
+            continue                      # pure wrapper: delegates to a helper checked on its own
+        lock = re.search(r"\.Lock\(\)", body_)
+        ok = bool(lock and lock.start() < store.start() and
+                  re.search(r"if [^\n{]*:?=\s*[\w.]+\[\w+\]\s*;\s*ok\s*\{\s*\n\s*return\b", body_[lock.end():store.start()]))
+        recheck.append((name, ok))
+    if not recheck:
+        raise vlib.TieBroken("no get-or-create helper with a map store found in %smanager.go" % GOV)
+
     body = "(* GENERATED by tools/props/C28.py from the current /repo sources - do not edit *)\n"
     body += "From Coq Require Import ZArith List String Bool.\nImport ListNotations.\nOpen Scope Z_scope.\nOpen Scope string_scope.\n"
     for kind in ("minute", "hour"):
@@ -157,8 +176,12 @@ def translate_params():
     body += "Definition rate_reject_returns_before_quota : bool := %s.\n" % ("true" if returns_ok else "false")
     body += "Definition critical_sections : list (string * bool) := [\n  " + ";\n  ".join(
         '("%s", %s)' % (n, "true" if ok else "false") for n, ok in locked) + "].\n"
+    body += "(* get-or-create helpers of manager.go that store into a map: re-check under the write lock *)\n"
+    body += "Definition get_or_create_recheck : list (string * bool) := [\n  " + ";\n  ".join(
+        '("%s", %s)' % (n, "true" if ok else "false") for n, ok in recheck) + "].\n"
     vlib.write_params("Params_Govern", body)
-    return {"minute_w": vals["minute_w"], "minute_n": vals["minute_n"], "hour_w": vals["hour_w"], "hour_n": vals["hour_n"],
+    return {"get_or_create_recheck": recheck,
+            "minute_w": vals["minute_w"], "minute_n": vals["minute_n"], "hour_w": vals["hour_w"], "hour_n": vals["hour_n"],
             "handlers": handlers, "handler_checks": checks, "rate_reject_returns": returns_ok,
             "critical_sections": locked}
 
@@ -223,7 +246,35 @@ def gen_sw(rng, i):
     return {"w": w, "n": n, "lim": lim, "t0": t0, "ops": ops}
 
 
+def midnight_times(rng):
+    """Token idle over a UTC midnight, first query of the new day at hour H >= 1, and traffic on
+    the following day before and after H:00 (the daily counter must reset at 00:00 UTC, not at
+    the hour of the first query of the previous day)."""
+    D = BASES[2] + rng.choice([0, DAY, 5 * DAY])
+    H = rng.randint(1, 7)
+    day0 = D + rng.randrange(8 * HOUR, 20 * HOUR)
+    first = D + DAY + H * HOUR + rng.choice([0, 1, 30 * 60 * S, rng.randrange(HOUR)])
+    early = D + 2 * DAY + rng.choice([0, 1, 10 * 60 * S, rng.randrange(H * HOUR)])
+    late = D + 2 * DAY + H * HOUR + rng.choice([0, 1, 5 * 60 * S, rng.randrange(HOUR)])
+    return day0, first, early, late
+
+
+def gen_qt_midnight(rng):
+    md = rng.choice([2, 3, 4])
+    mh = rng.choice([0, 0, 9])
+    day0, first, early, late = midnight_times(rng)
+    ops = [{"k": "a", "t": day0}] * rng.randint(0, 1) + [{"k": "a", "t": first}] * rng.randint(1, 2)
+    if rng.random() < 0.3:
+        ops.append({"k": "u", "t": first + 1})
+    ops += [{"k": "a", "t": early}] * rng.randint(md - 1, md) + [{"k": "a", "t": late}] * (md + 1)
+    if rng.random() < 0.5:
+        ops += [{"k": "a", "t": late + DAY - HOUR // 2}] * 2
+    return {"mh": mh, "md": md, "t0": day0, "ops": ops}
+
+
 def gen_qt(rng, i):
+    if rng.random() < 0.2:
+        return gen_qt_midnight(rng)
     mh = rng.choice([1, 2, 2, 3, 0, 4])
     md = rng.choice([0, 0, 2, 3, 5, 6])
     base = rng.choice(BASES[1:3])
@@ -257,7 +308,27 @@ def rnd_policy(rng, allow_zero, minute_only=False):
             "qh": rng.choice([2, 3, 4, 6] + z + z), "qd": rng.choice([0, 4, 6, 9])}
 
 
+def gen_mgr_midnight(rng):
+    md = rng.choice([2, 3])
+    day0, first, early, late = midnight_times(rng)
+    items, rid = [], [0]
+
+    def reqs(n, t):
+        for _ in range(n):
+            rid[0] += 1
+            items.extend([{"k": "rate", "tok": 1, "rid": rid[0], "t": t}, {"k": "quota", "tok": 1, "rid": rid[0], "t": t}])
+    reqs(rng.randint(0, 1), day0)
+    reqs(1, first)
+    if rng.random() < 0.3:
+        items.append({"k": "usage", "tok": 1, "t": first + 1})
+    reqs(rng.randint(md - 1, md), early)
+    reqs(md + 1, late)
+    return {"def": {"min": 0, "hr": 0, "qh": rng.choice([0, 0, 9]), "qd": md}, "items": items}
+
+
 def gen_mgr(rng, i, prm):
+    if rng.random() < 0.08:
+        return gen_mgr_midnight(rng)
     dm, nm = geom(prm["minute_w"], prm["minute_n"])
     dh, nh = geom(prm["hour_w"], prm["hour_n"])
     allow_zero = rng.random() < 0.25
@@ -343,6 +414,10 @@ def witness_cases(prm):
            "ops": [{"k": "a", "t": B + dm - 1}] * 4 + [{"k": "a", "t": B + nm * dm}] * 4, "witness": SIG_WINDOW}]
     qt = [{"mh": 2, "md": 0, "t0": B + 1,
            "ops": [{"k": "a", "t": B + 1}, {"k": "a", "t": B + HOUR}] + [{"k": "a", "t": B + HOUR + 1}] * 3, "witness": SIG_BOUNDARY},
+          # idle over midnight, first query of the day at 03:30, next day traffic at 00:10 and 03:05
+          {"mh": 0, "md": 3, "t0": BASES[2] + 10 * HOUR,
+           "ops": [{"k": "a", "t": BASES[2] + DAY + 3 * HOUR + HOUR // 2}] + [{"k": "a", "t": BASES[2] + 2 * DAY + HOUR // 6}] * 2 +
+                  [{"k": "a", "t": BASES[2] + 2 * DAY + 3 * HOUR + HOUR // 12}] * 4, "witness": "utc-day-boundary"},
           {"mh": 0, "md": 2, "t0": BASES[2] + 1,
            "ops": [{"k": "a", "t": BASES[2] + 1}, {"k": "a", "t": BASES[2] + DAY}] + [{"k": "a", "t": BASES[2] + DAY + 1}] * 3, "witness": SIG_BOUNDARY}]
 
@@ -365,9 +440,15 @@ def witness_cases(prm):
 # running the implementation
 # ---------------------------------------------------------------------------------------
 
-def run_impl(sw, qt, mgr, tag, prm=None):
-    out = vlib.run_go_harness("C28", "./" + GOV, "^TestVerifGovern$", HARNESS, {"sw": sw, "qt": qt, "mgr": mgr},
-                              rewrites=REWRITES, tag=tag)
+def run_impl(sw, qt, mgr, tag, prm=None, first=None):
+    out = vlib.run_go_harness("C28", "./" + GOV, "^TestVerifGovern$", HARNESS,
+                              {"sw": sw, "qt": qt, "mgr": mgr, "first": first or []}, rewrites=REWRITES, tag=tag)
+    if first is not None:
+        got = out.get("first") or []
+        if len(got) != len(first):
+            raise vlib.TieBroken("C28 harness returned %d first-request results for %d" % (len(got), len(first)))
+        for f, o in zip(first, got):
+            f.update(o)
     for key, inp in (("sw", sw), ("qt", qt), ("mgr", mgr)):
         got = out.get(key) or []
         if len(got) != len(inp):
@@ -386,6 +467,27 @@ def run_impl(sw, qt, mgr, tag, prm=None):
         if mg[3] != geom(mg[0], mg[1])[1] or mg[2] != geom(mg[0], mg[1])[0] or hg[3] != geom(hg[0], hg[1])[1] or hg[2] != geom(hg[0], hg[1])[0]:
             raise vlib.TieBroken("slot count/duration of the live limiters %s/%s differ from geom_n/geom_d of the model" % (mg, hg))
     return out
+
+
+def first_trials(tier):
+    k = 1 if tier == "quick" else 8
+    return [{"trials": 2500 * k, "g": 8, "lim": 1, "t": BASES[1]},
+            {"trials": 1200 * k, "g": 16, "lim": 1, "t": BASES[1]},
+            {"trials": 600 * k, "g": 6, "lim": 2, "t": BASES[0]}]
+
+
+def first_cases(f):
+    """The extreme trials of a first-request experiment as manager cases (one concurrent burst on a
+    token without trackers): the model admits exactly min(g, lim) at every check."""
+    dflt = {"min": f["lim"], "hr": f["lim"], "qh": f["lim"], "qd": f["lim"]}
+    rec = {k: f[k] for k in ("trials", "g", "lim", "t", "procs", "max_ra", "max_qa", "min_ra", "min_qa", "exceed", "worst")}
+    worst = {"def": dflt, "tok": 1, "first": rec,
+             "items": [{"k": "burst", "tok": 1, "t": f["t"], "n": f["g"], "g": f["g"],
+                        "o": [f["max_ra"], f["max_qa"]], "raw": f["worst"][3:5] if f["max_ra"] + f["max_qa"] == f["worst"][1] + f["worst"][2] else [f["max_qa"], f["max_qa"]]}]}
+    least = {"def": dflt, "tok": 1, "first": rec,
+             "items": [{"k": "burst", "tok": 1, "t": f["t"], "n": f["g"], "g": f["g"],
+                        "o": [f["min_ra"], f["min_qa"]], "raw": [f["min_qa"], f["min_qa"]]}]}
+    return [worst, least]
 
 
 def project(mc):
@@ -558,6 +660,11 @@ def chash(kind, c):
 
 def shrink(kind, case, prm, bad, rounds=10):
     """Remove chunks of ops/items while `bad(kind, i, failed)` stays true."""
+    if case.get("first"):
+        # a statistic over many concurrent trials: nothing to shrink, the record is the input
+        c = json.loads(json.dumps(case))
+        f = evaluate([], [], [c], prm, "Shrink")[2]
+        return c, f
     key = "items" if kind == "mg" else "ops"
     cur = strip(case)
     for _ in range(rounds):
@@ -627,6 +734,7 @@ def run(res, tier, seed):
         "clock non-decreasing (hypothesis nondecr of the window/quota theorems); wall-clock jumps backwards are exercised by the correspondence only",
         "api.executeQuery's composition (CheckRateLimit, return on rejection, CheckQuota) is re-composed by the harness; its order is re-extracted from internal/api/query.go each run (Params_Govern.handler_checks, C28_call_sites)",
         "tokens are independent map entries: multi-token histories are compared per token against the single-token model",
+        "get-or-create of a token's counter is modelled as its two critical sections (C28_first_requests_share_counter / C28_no_recheck_refuted); that the Go helpers re-check under the write lock is checked textually each run (Params_Govern.get_or_create_recheck, C28_get_or_create_rechecks) and exercised by concurrent first-request trials on fresh tokens (a race: detection is probabilistic, numbers in histogram.concurrent_first_request_trials)",
         "Go int / time.Duration overflow not modelled (times < year 2262, counters unbounded Z); RetryAfterSec's value, MaxRows/MaxDuration and the SQLite policy store are not modelled",
     ]
 
@@ -642,9 +750,10 @@ def run(res, tier, seed):
     sw = wsw + [strip(c["case"]) for c in corpus if c.get("type") == "sw"] + [gen_sw(rng, i) for i in range(nsw)]
     qt = wqt + [strip(c["case"]) for c in corpus if c.get("type") == "qt"] + [gen_qt(rng, i) for i in range(nqt)]
     mgr = wmg + [strip(c["case"]) for c in corpus if c.get("type") == "mg"] + [gen_mgr(rng, i, prm) for i in range(nmg)]
-    run_impl(sw, qt, mgr, tier, prm)
+    first = first_trials(tier)
+    run_impl(sw, qt, mgr, tier, prm, first=first)
     res.stage("impl_harness", t1)
-    mg = [p for c in mgr for p in project(c)]
+    mg = [p for c in mgr for p in project(c)] + [c for f in first for c in first_cases(f)]
     t2 = time.time()
     fsw, fqt, fmg = evaluate(sw, qt, mg, prm, "Cases_" + tier)
     res.stage("coq_eval", t2)
@@ -691,6 +800,7 @@ def run(res, tier, seed):
                               "rejected": sum(1 for c in sw for o, v in zip(c["ops"], c["obs"]) if o["k"] == "a" and v == 0)},
         "tracker_codes": {str(k): sum(1 for c in qt for o in c["obs"] if o[0] == k) for k in (0, 1, 2)},
         "manager_items": {k: cnt_items(lambda it, k=k: it["k"] == k) for k in ("rate", "quota", "set", "del", "usage", "burst")},
+        "concurrent_first_request_trials": [{k: f[k] for k in ("trials", "g", "lim", "procs", "max_ra", "max_qa", "min_ra", "min_qa", "exceed")} for f in first],
         "manager_rate": {"allowed": cnt_items(lambda it: it["k"] == "rate" and it["o"] == [1, 1]),
                          "rejected": cnt_items(lambda it: it["k"] == "rate" and it["o"] == [1, 0])},
         "manager_quota": {"allowed": cnt_items(lambda it: it["k"] == "quota" and it["o"] == [2, 0]),
@@ -716,8 +826,13 @@ def run(res, tier, seed):
             kind, i = disagree[0]
             small, f = shrink(kind, C[kind][i], prm, lambda k, j, ff: j in ff["agree"])
         guarded_bad = oracle_bad(kind, 0, f)
-        res.violation("model and implementation disagree on a %s history" % {"sw": "counter", "qt": "quota tracker", "mg": "manager"}[kind],
-                      {"kind": "correspondence", "correspondence": TIE_NAME, "type": kind, "case": small,
+        what = "model and implementation disagree on a %s history" % {"sw": "counter", "qt": "quota tracker", "mg": "manager"}[kind]
+        if small.get("first"):
+            fr = small["first"]
+            what = ("%d concurrent FIRST requests of a token without limiter/tracker (limit %d): up to %d passed the rate check and %d the quota check "
+                    "(%d of %d trials exceeded the limit); the model admits exactly %d" % (fr["g"], fr["lim"], fr["max_ra"], fr["max_qa"], fr["exceed"], fr["trials"], min(fr["g"], fr["lim"])))
+        res.violation(what,
+                      {"kind": "concurrent-first-requests" if small.get("first") else "correspondence", "correspondence": TIE_NAME, "type": kind, "case": small,
                        "disagreeing_cases": len(disagree), "oracle_fails_on_impl": guarded_bad,
                        "how_to_replay": "python3 tools/check.py C28 --replay <this file>"},
                       no_input=not guarded_bad, suffix="corr")
@@ -763,6 +878,15 @@ def replay(res, path):
         return 1
     prm = translate_params()
     kind = obj.get("type", "mg")
+    if c.get("first"):
+        f = {k: c["first"][k] for k in ("trials", "g", "lim", "t")}
+        run_impl([], [], [], "replay", prm, first=[f])
+        cases = first_cases(f)
+        fm = evaluate([], [], cases, prm, "Replay")[2]
+        print("first-request trials:", {k: f[k] for k in ("trials", "g", "lim", "procs", "max_ra", "max_qa", "min_ra", "min_qa", "exceed", "worst")})
+        bad = [i for i in range(len(cases)) if classify("mg", i, fm)[0] in ("disagree", "guarded-fail")]
+        print("verdict:", "limit exceeded / disagreement" if bad or f["exceed"] else "ok")
+        return 1 if bad or f["exceed"] else 0
     c = strip(c)
     if kind == "mg":
         c.pop("tok", None)
